@@ -62,6 +62,11 @@ CLAIMED = {
    note="Trusted: Lean kernel; Spec/PortMemory.lean; controller-side stub written from crossbar.py; master obeys the port rules of the property. Equal-width path (plain connect) not modelled.",
    technique="Lean 4 proof (FSM/trace invariants by induction over schedules, refuting witnesses by kernel evaluation) + cycle-exact co-simulation + Lean port-memory specification evaluated on implementation runs",
    design="§6 C07"),
+ "C10": dict(
+   text="Cycle-accurate Lean models of LiteDRAMWishbone2Native (three-state FSM for equal/wider buses; burst up-converter with write merging and read cache for narrower buses) and LiteDRAMNative2Wishbone, co-simulated against the real modules; for every width ratio the port-memory specification is evaluated at the Wishbone side of the real module under classic cycles, incrementing bursts, mixed read/write under one CYC, byte selects and aborts at random cycles, and the native-side memory compared; theorems for every master behaviour and port timing: acknowledge only on completion and only to a requesting, non-aborted master, exactly one completion per accepted access and at most one acknowledge per completion (counting over whole runs), aborted writes complete without byte enables, lane placement arithmetic, cache invalidated by every write and by CYC low, reads wait for pending merged writes, cache hits/port reads return the requested lane. One genuine defect (abort in WRITE hangs the bridge) found and fixed.",
+   note="Trusted: Lean kernel; Spec/PortMemory.lean; native-side stub written from crossbar.py; aborted writes only to a scratch region. Wider-bus composition with the down-converter judged by the specification (converter covered by C07).",
+   technique="Lean 4 proof (FSM invariants, counting by induction over schedules, lane arithmetic) + cycle-exact co-simulation + Lean port-memory specification evaluated on implementation runs",
+   design="§6 C10"),
  "C11": dict(
    text="Cycle-accurate Lean model of LiteDRAMAvalonMM2Native (FSM, command and write-data FIFOs), co-simulated against the real module on ports of the Avalon width; for every width ratio (equal, down- and up-conversion through the real LiteDRAMNativePortConverter) the port-memory specification is evaluated on the Avalon side of the real module under legal master traffic (singles, read/write bursts of 1..max beats, byte enables, idle gaps inside write bursts, don't-care address after the first beat) and the native-side memory compared; theorems for every master behaviour and port timing: single accesses, write bursts (beats numbered consecutively, beat k queued for base+k with the data presented when accepted, idle cycles neutral, burst left only after all n beats), read bursts (n commands at consecutive addresses with last on the final one, every returned word one readdatavalid beat, exit after the n-th). Three genuine defects found and fixed.",
    note="Trusted: Lean kernel; Spec/PortMemory.lean; native-side stub written from crossbar.py; Avalon master obeys the hold rules. For unequal widths the composition with the converter is judged by the specification (the converter itself is covered cycle-exactly by C07).",
